@@ -165,10 +165,15 @@ type entitlement struct {
 	renewOK  map[string]time.Time // last successful renewal (or grant)
 	renewErr map[string]time.Time // first failed renewal since the last success
 	acquires map[string]int       // Acquire calls per node
+	// (node, lease id) for which the node was asked to hand the lease off and renewed it
+	// at most once afterwards: it left the primary role keeping the lease for the target (whether the
+	// target ever picked it up is not the node's business, and not visible in this log)
+	keptForHandoff map[[2]string]bool
+	renewsAfterAsk map[[2]string]int
 }
 
 func derive(calls []cluster.LeaseCall) *entitlement {
-	e := &entitlement{lease: map[string]string{}, lostAt: map[string]time.Time{}, handed: map[string]bool{}, closed: map[[2]string]bool{}, renewOK: map[string]time.Time{}, renewErr: map[string]time.Time{}, acquires: map[string]int{}}
+	e := &entitlement{lease: map[string]string{}, lostAt: map[string]time.Time{}, handed: map[string]bool{}, closed: map[[2]string]bool{}, keptForHandoff: map[[2]string]bool{}, renewsAfterAsk: map[[2]string]int{}, renewOK: map[string]time.Time{}, renewErr: map[string]time.Time{}, acquires: map[string]int{}}
 	lose := func(n string, at time.Time) {
 		if e.lease[n] != "" {
 			e.lease[n] = ""
@@ -205,6 +210,12 @@ func derive(calls []cluster.LeaseCall) *entitlement {
 			case c.Result == "ok":
 				e.renewOK[c.Node] = c.At
 				delete(e.renewErr, c.Node)
+				// (the primary renews the lease once as part of handing it off; a primary whose
+				// handoff was abandoned goes on renewing)
+				k := [2]string{c.Node, c.Arg}
+				if e.renewsAfterAsk[k]++; e.renewsAfterAsk[k] > 1 {
+					delete(e.keptForHandoff, k)
+				}
 			case strings.Contains(c.Result, litefs.ErrLeaseExpired.Error()):
 				if e.lease[c.Node] == c.Arg {
 					lose(c.Node, c.At)
@@ -213,6 +224,11 @@ func derive(calls []cluster.LeaseCall) *entitlement {
 				if _, ok := e.renewErr[c.Node]; !ok {
 					e.renewErr[c.Node] = c.At
 				}
+			}
+		case "handoff":
+			if id := e.lease[c.Node]; id != "" && c.Result == "requested" {
+				e.keptForHandoff[[2]string{c.Node, id}] = true
+				e.renewsAfterAsk[[2]string{c.Node, id}] = 0
 			}
 		case "close":
 			e.closed[[2]string{c.Node, c.Arg}] = true
@@ -516,8 +532,18 @@ func runPlan(c *pbt.Case, p Plan) {
 		if handedOn {
 			continue
 		}
+		if e.keptForHandoff[[2]string{node, id}] && !e.closed[[2]string{node, id}] {
+			c.Label("lease-kept-for-a-handoff-nobody-took")
+			continue
+		}
 		if !e.closed[[2]string{node, id}] {
-			c.Failf("C08/lease-not-destroyed", "node %s lost lease %s (not by handoff) and never closed it", node, id)
+			var hist []string
+			for _, lc := range cl.Svc.Calls() {
+				if lc.Arg == id || strings.Contains(lc.Result, id) || lc.Op == "expire" || lc.Op == "handoff" {
+					hist = append(hist, fmt.Sprintf("%s %s(%s)=%s", lc.Node, lc.Op, lc.Arg, lc.Result))
+				}
+			}
+			c.Failf("C08/lease-not-destroyed", "node %s lost lease %s (not by handoff) and never closed it; the service's log: %v", node, id, hist)
 		}
 	}
 	if a := cl.LeaseAnomalies(); len(a) > 0 {
